@@ -20,6 +20,8 @@
 -/
 import YashModel.Args.Lemmas
 import YashModel.Args.Refine
+import YashModel.Args.CanonLemmas
+import YashModel.Args.ErrorLemmas
 import YashModel.Generated.ArgSpecs
 namespace YashModel.Args
 
@@ -384,6 +386,100 @@ theorem long_eq_arg_via_spec (specs : List OptionSpec) (mode : Mode) (l x : Str)
       (parseArguments specs mode (('-' :: '-' :: l) :: x :: r)).view := by
   rw [parse_refines_spec, parse_refines_spec]; exact spec_long_eq_arg specs mode l x r hl heq ha
 
+/-! ## equivalent spellings: one invariance theorem
+
+  `Spec.canon` (Canon.lean) rewrites a vector into its canonical spelling: clusters split into single
+  letters, attached option-arguments (`-oX`, `--name=X`) moved to the next argument, abbreviated long
+  names written in full.  Two vectors are *equivalent spellings* when they have the same canonical
+  spelling. -/
+
+/-- ★ For every option table, every argument vector and every mode that accepts attached
+    option-arguments (under `portable` they are rejected: `portable_rejects_attached`): the canonical
+    spelling parses like the vector itself — same options with the same arguments in the same order
+    and the same operands, or the same error. -/
+theorem canonical_spelling_same_parse (specs : List OptionSpec) (mode : Mode)
+    (hm : mode.optionArgumentsInSameField = true) (args : List Str) :
+    (parseArguments specs mode (Spec.canon specs args)).view = (parseArguments specs mode args).view := by
+  rw [parse_refines_spec, parse_refines_spec]
+  exact run_canon specs mode hm args.length args (Nat.le_refl _)
+
+/-- ★ Equivalent spellings of an invocation parse alike.  (Grouped / separate letters, attached / separate
+    option-arguments, abbreviated / full long names, `=arg` / next argument, and any mixture of them
+    anywhere in the vector: all are instances, see the examples.) -/
+theorem equivalent_spellings_same_parse (specs : List OptionSpec) (mode : Mode)
+    (hm : mode.optionArgumentsInSameField = true) (a b : List Str) (h : Spec.canon specs a = Spec.canon specs b) :
+    (parseArguments specs mode a).view = (parseArguments specs mode b).view := by
+  rw [← canonical_spelling_same_parse specs mode hm a, ← canonical_spelling_same_parse specs mode hm b, h]
+
+/-- ★ `Spec.canon` really produces the canonical spelling: if the vector is accepted (and the table
+    respects the documented naming rules: no short name `-`, long names non-empty and without `=`),
+    every option of the canonical spelling is written `-c` or `--fullname`, each followed by its
+    argument as an argument of its own, up to `--` / the first operand. -/
+theorem canon_is_canonical (specs : List OptionSpec) (mode : Mode) (hw : WellNamed specs) (args : List Str) (r)
+    (h : (parseArguments specs mode args).view = .ok r) :
+    Spec.isCanonical specs false (Spec.canon specs args) = true := by
+  rw [parse_refines_spec] at h
+  exact canon_isCanonical specs mode hw args.length args r (Nat.le_refl _) h
+
+/-- ★ On canonical vectors `parse_arguments` is the ten-line reader `Spec.readCanon` (one token at a time:
+    `-c`, `--fullname`, its argument if it takes one, `--`, operands). -/
+theorem canonical_vectors_read_simply (specs : List OptionSpec) (mode : Mode) (v : List Str)
+    (h : Spec.isCanonical specs false v = true) :
+    (parseArguments specs mode v).view = Spec.readCanon specs mode v := by
+  rw [parse_refines_spec]
+  exact run_eq_readCanon specs mode v.length v (Nat.le_refl _) h
+
+/-- ★ End to end: what `parse_arguments` delivers for an accepted vector is what the simple reader
+    reads off its canonical spelling ("separate everything first, then read options until `--` or
+    the first operand"). -/
+theorem parse_is_read_of_canonical (specs : List OptionSpec) (mode : Mode)
+    (hm : mode.optionArgumentsInSameField = true) (hw : WellNamed specs) (args : List Str) (r)
+    (h : (parseArguments specs mode args).view = .ok r) :
+    Spec.readCanon specs mode (Spec.canon specs args) = .ok r := by
+  rw [← canonical_vectors_read_simply specs mode _ (canon_is_canonical specs mode hw args r h),
+    canonical_spelling_same_parse specs mode hm, h]
+
+/-! ## malformed invocations: one theorem over all error classes -/
+
+/-- ★ `parse_arguments` fails with `e` **if and only if** the vector splits into a prefix that consists of
+    accepted options only, one argument in option position whose defect is `e`, and a rest that is never
+    looked at.  The defect (`tokenDefect`) is what the reference parser finds wrong with that one
+    argument: an unknown letter in a cluster, a letter / name switched off by the mode, an attached
+    argument while that is switched off, an unknown or ambiguous long name, `=arg` on an option
+    without argument, or an option that needs an argument at the very end of the vector.
+    "If": every malformed vector is rejected, with nothing delivered (not even the options of the valid
+    prefix).  "Only if": nothing else is ever rejected — every other vector is accepted. -/
+theorem malformed_iff (specs : List OptionSpec) (mode : Mode) (args : List Str) (e : ParseError) :
+    parseArguments specs mode args = .error e ↔
+      ∃ pre a r os, args = pre ++ a :: r ∧ OptionsOnly specs mode pre os ∧
+        tokenDefect specs mode a r.head? = some e := by
+  constructor
+  · intro h
+    have : optLoop specs mode args = .error e := by
+      unfold parseArguments at h
+      cases hl : optLoop specs mode args with
+      | error e' => rw [hl] at h; simp [finish] at h; rw [h]
+      | ok q => rw [hl] at h; cases q; simp [finish] at h
+    exact optLoop_error_localised specs mode args.length args e (Nat.le_refl _) this
+  · rintro ⟨pre, a, r, os, rfl, hpre, hdef⟩
+    exact error_after_options specs mode pre os a r e hpre ((step_fail_iff specs mode a r.head? e).mpr hdef)
+
+/-- ★ a vector is accepted exactly when no argument in option position has a defect -/
+theorem accepted_iff_no_defect (specs : List OptionSpec) (mode : Mode) (args : List Str) :
+    (∃ r, parseArguments specs mode args = .ok r) ↔
+      ¬ ∃ pre a r os e, args = pre ++ a :: r ∧ OptionsOnly specs mode pre os ∧
+        tokenDefect specs mode a r.head? = some e := by
+  constructor
+  · rintro ⟨r, hr⟩ ⟨pre, a, r', os, e, h1, h2, h3⟩
+    have := (malformed_iff specs mode args e).mpr ⟨pre, a, r', os, h1, h2, h3⟩
+    rw [hr] at this; cases this
+  · intro h
+    cases hp : parseArguments specs mode args with
+    | ok r => exact ⟨r, rfl⟩
+    | error e =>
+      obtain ⟨pre, a, r, os, h1, h2, h3⟩ := (malformed_iff specs mode args e).mp hp
+      exact absurd ⟨pre, a, r, os, e, h1, h2, h3⟩ h
+
 /-! ## the option tables of the real built-ins (generated from yash-builtin on every run) -/
 
 /-- ☆ No generated table has two options with the same short name or the same long name, and every
@@ -547,5 +643,44 @@ example : (parseArguments exT exM [['-','-','o','u','=','X'], ['Y']]).view =
   long_eq_arg_via_spec exT exM ['o','u'] ['X'] [['Y']] (by decide) (by decide)
     (by intro s h; have h' : Denotes exT ['o','u'] exO := by decide
         unfold Denotes at h h'; rw [h'] at h; cases h; rfl)
+
+/-- equivalent spellings, anywhere in the vector: `-abo X --lon --ou=Y -- -a` ≡ `-a -b -oX --long --output Y -- -a` -/
+example : Spec.canon exT [['-','a','b','o'], ['X'], ['-','-','l','o','n'], ['-','-','o','u','=','Y'], ['-','-'], ['-','a']] =
+    [['-','a'], ['-','b'], ['-','o'], ['X'], ['-','-','l','o','n','g'], ['-','-','o','u','t','p','u','t'], ['Y'], ['-','-'], ['-','a']] := by
+  decide
+example : (parseArguments exT exM [['-','a','b','o'], ['X'], ['-','-','l','o','n'], ['-','-','o','u','=','Y'], ['-','-'], ['-','a']]).view =
+    (parseArguments exT exM [['-','a'], ['-','b'], ['-','o','X'], ['-','-','l','o','n','g'], ['-','-','o','u','t','p','u','t'], ['Y'], ['-','-'], ['-','a']]).view :=
+  equivalent_spellings_same_parse exT exM rfl _ _ (by decide)
+/-- an abbreviation with an attached argument (`--lo=X` where `lo` abbreviates the only `lo…` option) -/
+def exT2 : List OptionSpec := [{ short := some 'l', long := some ['l','o','n','g'], takesArg := true }, { short := some 'a' }]
+example : Spec.canon exT2 [['-','-','l','o','=','X'], ['Y']] = [['-','-','l','o','n','g'], ['X'], ['Y']] := by decide
+example : (parseArguments exT2 exM [['-','-','l','o','=','X'], ['Y']]).view =
+    (parseArguments exT2 exM [['-','-','l','o','n','g'], ['X'], ['Y']]).view :=
+  equivalent_spellings_same_parse exT2 exM rfl _ _ (by decide)
+example : (parseArguments exT2 exM [['-','-','l','o','=','X'], ['Y']]).view =
+    .ok ([({ short := some 'l', long := some ['l','o','n','g'], takesArg := true }, some ['X'])], [['Y']]) := rfl
+/-- malformed tokens are left alone; a letter is not split from a following `-` -/
+example : Spec.canon exT [['-','a','Z','b']] = [['-','a'], ['-','Z','b']] := by decide
+example : Spec.canon exT [['-','a','-','b']] = [['-','a','-','b']] := by decide
+example : Spec.canon exT [['-','-','l','o']] = [['-','-','l','o']] := by decide
+/-- the naming rules hold for the example table; the canonical spelling is canonical and read by the simple reader -/
+theorem exT_wellNamed : WellNamed exT := by
+  intro s hs
+  simp [exT] at hs
+  rcases hs with rfl | rfl | rfl | rfl | rfl | rfl <;> refine ⟨by decide, ?_⟩ <;> intro l hl <;> cases hl <;> decide
+example : Spec.isCanonical exT false (Spec.canon exT [['-','a','b','o','X'], ['-','-','l','o','n'], ['Y']]) = true := by decide
+example : Spec.readCanon exT exM (Spec.canon exT [['-','a','b','o','X'], ['-','-','l','o','n'], ['Y']]) =
+    .ok ([({ short := some 'a' }, none), ({ short := some 'b' }, none), (exO, some ['X']), ({ long := some ['l','o','n','g'] }, none)], [['Y']]) :=
+  parse_is_read_of_canonical exT exM rfl exT_wellNamed _ _ rfl
+
+/-- defects of single arguments, and a rejected vector located by `malformed_iff` -/
+example : tokenDefect exT exM ['-','a','Z','b'] none = some (.unknownShort 'Z') := by rfl
+example : tokenDefect exT exM ['-','-','l','o'] none =
+    some (.ambiguousLong [{ long := some ['l','o','n','g'] }, { long := some ['l','o','t'] }]) := by rfl
+example : tokenDefect exT exM ['-','a','o'] none = some (.missingArgument exO) := by rfl
+example : tokenDefect exT exM ['-','a','o'] (some ['X']) = none := by rfl
+example : tokenDefect exT Mode.portable ['-','o','X'] none = some (.unseparatedArgument exO) := by rfl
+example : parseArguments exT exM ([['-','a'], ['-','o'], ['X']] ++ ['-','b','Z'] :: [['-','a']]) = .error (.unknownShort 'Z') :=
+  (malformed_iff exT exM _ _).mpr ⟨[['-','a'], ['-','o'], ['X']], ['-','b','Z'], [['-','a']], _, rfl, rfl, by rfl⟩
 
 end YashModel.Args
